@@ -182,3 +182,21 @@ func thmReaderRoundTrip2(f1, f2 *Fastq) {
 	_, _, _, _ = g1, g2, e1, e2
 	_, _, _, _, _ = a1, s1, b, a2, s2
 }
+
+//@ theorem C02.marshalIsWrite
+//@   props C02
+//@   inline Fastq.MarshalText
+//@   requires f != nil
+// MarshalText returns exactly the bytes Write emits (MarshalText's body is
+// executed here, Write is replaced by its contract in both places).
+func thmMarshalIsWrite(f *Fastq, x int) {
+	t, err := f.MarshalText()
+	buf := &bytes.Buffer{}
+	f.Write(buf)
+	//@ assert err == nil && len(t) == len(buf.out)
+	if 0 <= x && x < len(t) {
+		//@ assert t[x] == buf.out[x]
+		_ = x
+	}
+	_, _ = t, err
+}
